@@ -225,6 +225,22 @@ PARAM_CLS = {
     (PKG + ".MIMAS.combine_regions", "container"):
         AV(num="obj", cls=PKG + ".MIMAS.Dummy"),
 }
+LEN_R = U(idx=Idx("row", None, None), num="int")
+LEN_C = U(idx=Idx("col", None, None), num="int")
+SHAPE2 = AV(num="obj", cls="shape", elem=INT, elts=(
+    AV(num="int", exact=True, kind=fs("nrows")),
+    AV(num="int", exact=True, kind=fs("ncols"))))
+# BANE worker: region = (first row, last row + 1) of the stripe; step_size /
+# box_size = (extent along rows, extent along columns); shape = (rows, cols)
+PARAM_CLS.update({
+    (PKG + ".BANE.sigma_filter", "region"): AV(num="obj",
+                                              elts=(ROW0, ROW0)),
+    (PKG + ".BANE.sigma_filter", "step_size"): AV(num="obj",
+                                                 elts=(LEN_R, LEN_C)),
+    (PKG + ".BANE.sigma_filter", "box_size"): AV(num="obj",
+                                                elts=(LEN_R, LEN_C)),
+    (PKG + ".BANE.sigma_filter", "shape"): SHAPE2,
+})
 GLOBAL_DATA_FIELDS = {"wcshelper": WCSH, "psfhelper": WCSH, "region": REGION}
 
 PIX2WORLD = {"wcs_pix2world", "all_pix2world"}
@@ -524,6 +540,19 @@ class UnitLib(Lib):
                                              None) for c in l.elts],
                                 src=l.src)
             return res
+        if isinstance(op, (ast.Mult, ast.Div, ast.FloorDiv)):
+            # a length along an image axis (box height, step, stderr of xo)
+            # scaled by a plain number is still a length along that axis
+            for side, other, first in ((l, r, True), (r, l, False)):
+                if isinstance(side.idx, Idx) and side.idx.frame is None \
+                        and side.idx.origin is None and other.idx is None \
+                        and other.unit is None and \
+                        isinstance(other.cval, (int, float)) and \
+                        not isinstance(other.cval, bool) and \
+                        (first or isinstance(op, ast.Mult)):
+                    return res.with_(idx=side.idx)
+            if isinstance(op, ast.FloorDiv):
+                return res
         if isinstance(op, (ast.Mult, ast.Div)):
             lc = l.cval if isinstance(l.cval, (int, float)) and \
                 not isinstance(l.cval, bool) else None
@@ -627,8 +656,12 @@ class UnitLib(Lib):
                         len(x.args) == 1:
                     return x.args[0]
                 return x
-            # axis check of the slice bounds themselves
-            for pos, (bnode, bv) in enumerate(((r0, rv), (c0, cv))):
+            # axis check of the slice bounds themselves (lower and upper)
+            r1, c1 = sl.elts[0].upper, sl.elts[1].upper
+            rv1 = it.eval(r1, env) if r1 is not None else None
+            cv1 = it.eval(c1, env) if c1 is not None else None
+            for pos, (bnode, bv) in ((0, (r0, rv)), (1, (c0, cv)),
+                                     (0, (r1, rv1)), (1, (c1, cv1))):
                 want = "row" if pos == 0 else "col"
                 if bv is not None and isinstance(bv.idx, Idx) and \
                         bv.idx.axis and bv.idx.axis != want and \
@@ -637,6 +670,13 @@ class UnitLib(Lib):
                                 "a %s index (%s) is used as the %s bound of "
                                 "a 2-d slice" % (bv.idx.axis, norm(bnode),
                                                  want),
+                                {"bound": bv.short()})
+                elif bv is not None and isinstance(bv.idx, Idx) and \
+                        bv.idx.crossed:
+                    self.report(it, n, "idx-slice-axis",
+                                "the %s bound %s of a 2-d slice mixes the "
+                                "axes: %s" % (want, norm(bnode),
+                                              bv.idx.crossed),
                                 {"bound": bv.short()})
             cut = Cut(norm(strip(r0)) if r0 is not None else "0",
                       norm(strip(c0)) if c0 is not None else "0")
@@ -748,6 +788,29 @@ class UnitLib(Lib):
             return ret
         if dotted == PKG + ".regions.Region.sky_within":
             return container(BOOL, cls="ndarray")
+        if isinstance(f, ast.Name) and f.id == "range" and \
+                f.id not in env and len(args) in (2, 3):
+            # range(first, stop[, step]) over positions along one axis
+            ixs = [a.idx for a in args if isinstance(a.idx, Idx)]
+            dims = [a.kind & {"nrows", "ncols"} for a in args[:2]
+                    if a.kind]
+            axes = {i.axis for i in ixs if i.axis} | {
+                "row" if "nrows" in d else "col" for d in dims if d}
+            if len(axes) == 1 and (ixs or dims):
+                ax = axes.pop()
+                pos = [i for i in ixs if i.origin is not None or
+                       i.frame is not None]
+                o = pos[0].origin if pos else (0 if dims else None)
+                fr = pos[0].frame if pos else ("image" if dims else None)
+                if isinstance(args[0].cval, int) and args[0].cval == 0 \
+                        and dims:
+                    o, fr = 0, "image"
+                return container(AV(num="int", exact=True,
+                                    idx=Idx(ax, o, fr)), cls="range")
+            if len(axes) > 1:
+                self.report(it, n, "idx-crossed",
+                            "range() mixes row and column quantities: %s" %
+                            norm(n, 70), {})
         if isinstance(f, ast.Name) and f.id == "range" and \
                 f.id not in env and len(args) == 1 and \
                 args[0].kind is not None and \
@@ -941,8 +1004,31 @@ class UnitLib(Lib):
             # comparing two quantities: same rules as adding them
             chk = self.additive(it, n, args[0], args[1], FLOAT, ast.Add())
             base = super().call(it, n, dotted, recv, args, kwargs, env)
+            ix = None
+            ia, ib = args[0].idx, args[1].idx
+            if isinstance(ia, Idx) and isinstance(ib, Idx):
+                if ia.axis and ib.axis and ia.axis != ib.axis:
+                    ix = Idx(ia.axis, None, None,
+                             "%s(...) of a %s and a %s quantity" %
+                             (f.id, ia.axis, ib.axis))
+                else:
+                    ix = Idx(ia.axis or ib.axis,
+                             ia.origin if ia.origin == ib.origin else None,
+                             ia.frame if ia.frame == ib.frame else None,
+                             ia.crossed or ib.crossed)
+            elif isinstance(ia, Idx) or isinstance(ib, Idx):
+                one, other = (ia, args[1]) if isinstance(ia, Idx) \
+                    else (ib, args[0])
+                ix = one
+                dim = other.kind & {"nrows", "ncols"} if other.kind else None
+                if dim and one.axis and \
+                        ("nrows" in dim) != (one.axis == "row"):
+                    ix = Idx(one.axis, one.origin, one.frame,
+                             "%s index clamped with the length of the %s "
+                             "axis" % (one.axis, "row" if "nrows" in dim
+                                       else "column"))
             if base is not None:
-                return base.with_(unit=chk.unit, kind=chk.kind)
+                return base.with_(unit=chk.unit, kind=chk.kind, idx=ix)
             return base
         if isinstance(f, ast.Name) and f.id in ("abs", "min", "max") and args:
             base = super().call(it, n, dotted, recv, args, kwargs, env)
